@@ -89,6 +89,7 @@ type Fail struct {
 	Kind    string `json:"kind"`
 	Op      string `json:"op,omitempty"`
 	Form    string `json:"form,omitempty"`
+	Err     string `json:"err,omitempty"`
 	Harness bool   `json:"harness,omitempty"`
 	Step    int    `json:"step"`
 	Msg     string `json:"msg"`
@@ -558,7 +559,14 @@ func replay(b *Beh, useVM bool) *Fail {
 				if len(got) < len(wantSteps) {
 					st = wantSteps[len(got)]
 				}
-				return failAt(st, "outcome", fmt.Sprintf("model predicts success, runtime failed with %s after %d of %d logs: %v", r.Class, len(got), len(want), firstErrLine(r.Err)))
+				kind := "outcome"
+				if strings.HasPrefix(r.Class, "external:") {
+					// the storage layer (atree) or the host refused: not a user-level outcome of the program
+					kind = "spurious-failure"
+				}
+				f := failAt(st, kind, fmt.Sprintf("model predicts success, runtime failed with %s after %d of %d logs: %v", r.Class, len(got), len(want), firstErrLine(r.Err)))
+				f.Err = r.Class + ": " + firstErrLine(r.Err)
+				return f
 			}
 			return fail("outcome", fmt.Sprintf("model predicts failure %q at %s %s, runtime succeeded", s.Res, s.Op, formOf(s)))
 		}
